@@ -10,7 +10,7 @@
    expression names after EVERY op with `trace_ok`, and dask's 1-D slice assignment with
    `setitem_den`, exactly. *)
 From Coq Require Import List Bool ZArith PArith.
-From DA Require Import PyBase Mutation MutationFacts.
+From DA Require Import PyBase Slicing Mutation MutationFacts SetitemPlan SetitemPlanFacts.
 Import ListNotations.
 Open Scope Z_scope.
 
@@ -132,3 +132,177 @@ Print Assumptions C11_history_frame.
 Print Assumptions C11_identity_derivations_alias.
 Print Assumptions C11_setitem_1d_den.
 Print Assumptions C11_optimized_flag_stale_refuted.
+
+(* ==================================================================================================
+   THE PER-BLOCK PLAN of `x[index] = value`  (model: theories/SetitemPlan.v, a transcription of normalize_index,
+   parse_assignment_indices, parse_and_validate_assignment and of the block loop of setitem_array_expr; proofs:
+   theories/SetitemPlanFacts.v).  harness/c11.py (fam_setitem_plan) reads the plan back from the real SetItem layer (Alias /
+   Task(setitem, block, value[value_indices], block_indices)) and compares it, and the output of
+   parse_and_validate_assignment, EXACTLY with `parse` / `plan_obs` on every generated case.
+
+   PER-AXIS THEOREMS, for every block [loc0, loc1) of every chunking and every parsed index entry. *)
+
+(* a parsed slice (a, b, k) — k > 0, reversed slices are already recast by the parser.  Either the block is reported as not
+   overlapping and then holds no addressed position, or the kernel receives the local slice (s, t, k) with
+   0 <= s < t <= block size (IN BOUNDS of the block) that addresses exactly the addressed positions of the block, its
+   sz = len(range(s, t, k)) positions being the positions number pre, pre+1, ..., pre+sz-1 of the whole slice
+   (pre * k = loc0 + s - a), and value[pre : pre + sz] stays IN BOUNDS of the implied length. *)
+Theorem C11_plan_axis_slice :
+  forall a b k loc0 loc1, 0 < k -> 0 <= a -> 0 <= loc0 < loc1 ->
+  match axis_block (PSl a b k) loc0 loc1 with
+  | None => forall p, loc0 <= p < loc1 -> ~ in_sl a b k p
+  | Some (bi, osz, opre) =>
+      exists s t sz pre,
+        bi = SSlice (mkslice (Some s) (Some t) (Some k)) /\ osz = Some sz /\ opre = Some pre /\
+        0 <= s < t /\ t <= loc1 - loc0 /\ sz = range_len s t k /\ 0 < sz /\ 0 <= pre /\
+        pre * k = loc0 + s - a /\
+        pre + sz <= range_len a b k /\
+        (forall q, 0 <= q < loc1 - loc0 -> (in_sl s t k q <-> in_sl a b k (loc0 + q)))
+  end.
+Proof. exact axis_block_slice_spec. Qed.
+
+Theorem C11_plan_axis_int :
+  forall i loc0 loc1,
+  match axis_block (PInt i) loc0 loc1 with
+  | None => forall p, loc0 <= p < loc1 -> p <> i
+  | Some (bi, osz, opre) => bi = SInt (i - loc0) /\ osz = None /\ opre = None /\ 0 <= i - loc0 < loc1 - loc0
+  end.
+Proof. exact axis_block_int_spec. Qed.
+
+(* a 1-D integer list l (posified).  The block index bl lists, in order, the entries of l that fall into the block (minus
+   loc0, IN BOUNDS of the block), the value index w their positions in l (IN BOUNDS of the value); and LAST WRITE WINS
+   consistently: for a repeated entry NumPy keeps the last write (last_idx), the kernel — NumPy again, inside the block —
+   keeps the last write of bl, and that is the same value coordinate. *)
+Theorem C11_plan_axis_list :
+  forall l loc0 loc1,
+  match axis_block (PLst l) loc0 loc1 with
+  | None => forall p, loc0 <= p < loc1 -> ~ In p l
+  | Some (bi, osz, opre) =>
+      let bl := block_list l loc0 loc1 in
+      let w := where_in 0 l loc0 loc1 in
+      bi = SList bl /\ osz = None /\ opre = None /\ bl <> [] /\ length bl = length w /\
+      Forall (fun q => 0 <= q < loc1 - loc0) bl /\ Forall (fun r => 0 <= r < lenZ l) w /\
+      (forall k, (k < length bl)%nat -> loc0 + nth k bl 0 = nth (Z.to_nat (nth k w 0)) l 0) /\
+      (forall p, loc0 <= p < loc1 ->
+         last_idx p l 0 = match last_idx (p - loc0) bl 0 with Some k => Some (nth (Z.to_nat k) w 0) | None => None end)
+  end.
+Proof. exact axis_block_list_spec. Qed.
+
+(* N-d FRAME (any rank, any chunking): a block reported untouched (Alias of the input block) contains no indexed position;
+   every indexed position lies in a touched block; and the blocks of an axis are disjoint, so it lies in exactly one.
+   Every accepted assignment is parsed into well-formed entries (wf_pidx1: positive step, non-negative start — also for the
+   recast negative-step slices): C11_plan_parse_wf, so the frame theorems are stated from `parse` itself. *)
+Theorem C11_plan_parse_wf :
+  forall idx shape vshape pr,
+  Forall (fun d => 0 <= d) shape -> parse idx shape vshape = Some pr -> Forall wf_pidx1 (p_idx pr).
+Proof. exact parse_wf. Qed.
+
+Theorem C11_plan_frame_untouched :
+  forall idx shape vshape pr ls p,
+  Forall (fun d => 0 <= d) shape -> parse idx shape vshape = Some pr ->
+  Forall wf_loc ls -> Forall2 in_block ls p ->
+  block_plan pr vshape ls = BUntouched -> ~ Forall2 addressed1 (p_idx pr) p.
+Proof. exact plan_frame_untouched_parse. Qed.
+
+Theorem C11_plan_frame_touched :
+  forall idx shape vshape pr ls p,
+  Forall (fun d => 0 <= d) shape -> parse idx shape vshape = Some pr ->
+  Forall wf_loc ls -> Forall2 in_block ls p ->
+  Forall2 addressed1 (p_idx pr) p -> block_plan pr vshape ls <> BUntouched.
+Proof. exact plan_frame_touched_parse. Qed.
+
+Theorem C11_plan_blocks_disjoint :
+  forall cs, Forall (fun c => 0 < c) cs -> forall off l l' x,
+  In l (locs_from off cs) -> In l' (locs_from off cs) -> in_block l x -> in_block l' x -> l = l'.
+Proof. exact locs_disjoint. Qed.
+
+(* FULL N-d DENOTATION STATEMENT (NOT proved in general; decided by `den_ok_b` inside Coq on every case the harness generates
+   in its domain, and on the Examples below):
+
+     forall chunks idx vshape pr x v p,
+       Forall (Forall (fun c => 0 < c)) chunks -> parse idx (map zsum chunks) vshape = Some pr ->
+       in_bounds p (map zsum chunks) ->
+       plan_setitem x chunks pr vshape v p = Some (np_setitem x idx (map zsum chunks) vshape v p).
+
+   What is proved of it: the three per-axis theorems above (local index and value sub-index of every block, bounds, last write
+   wins) and, for any rank, the part of the statement that concerns the blocks passed through (C11_plan_denotation_partial).
+   MISSING: (1) the lift of the per-axis theorems through fill_values / reverse_values (alignment of the value dimensions
+   with the non-integer axes, trailing broadcasting) for the touched blocks; (2) the bridge from the raw index to the parsed
+   one (pai_slice: `in_sl a b k p <-> In p (sel s n)`, reversed order for negative steps; its well-formedness IS proved). *)
+Theorem C11_plan_denotation_partial :
+  forall idx shape x chunks pr vshape v p ls,
+  Forall (fun d => 0 <= d) shape -> parse idx shape vshape = Some pr ->
+  Forall wf_loc ls -> Forall2 in_block ls p ->
+  find_locs p chunks = Some ls -> block_plan pr vshape ls = BUntouched ->
+  plan_setitem x chunks pr vshape v p = Some (x p) /\ ~ Forall2 addressed1 (p_idx pr) p.
+Proof. exact plan_denotation_untouched. Qed.
+
+(* FORMER COUNTEREXAMPLES.  Before the repairs ce7c1de / ed2da03 of /repo the faithful model REFUTED the denotation statement
+   on these inputs (theorems C11_plan_int_before_list_refuted, ..._int_before_reversed_refuted,
+   ..._wrong_axis_reversed_refuted, ..._missing_ellipsis_refuted of the previous version of this file: findings C11-S1, S3,
+   S4).  On the model of the repaired code no block crashes and the graph computes NumPy's result at EVERY position: *)
+Example C11_plan_int_before_list_now_numpy :            (* was: TypeError while building the graph *)
+  plan_obs [[2; 2]; [2; 2]] [SInt 2; SList [0; 1]] [2] <> Some None /\
+  den_ok_b [[2; 2]; [2; 2]] [SInt 2; SList [0; 1]] [2] = true /\
+  den_ok_b [[1; 1]; [1; 3; 2]; [1; 1]] [SInt 0; SList [-5; -1; -5]; SSlice colon] [3; 2] = true.
+Proof. vm_compute. repeat split; try reflexivity. discriminate. Qed.
+
+Example C11_plan_int_before_reversed_now_numpy :        (* was: IndexError while building the graph *)
+  plan_obs [[2; 2]; [2; 2]] [SInt 1; SSlice (mkslice None None (Some (-1)))] [4] <> Some None /\
+  den_ok_b [[2; 2]; [2; 2]] [SInt 1; SSlice (mkslice None None (Some (-1)))] [4] = true.
+Proof. vm_compute. split; [discriminate | reflexivity]. Qed.
+
+Example C11_plan_reversed_later_axis_now_numpy :        (* was: the wrong value axis reversed, silently *)
+  den_ok_b [[2]; [3]; [3]] [SInt 1; SSlice (mkslice None None (Some (-1))); SSlice colon] [3; 3] = true /\
+  den_ok_b [[1; 1]; [2; 1]; [3]] [SInt (-1); SSlice colon; SSlice (mkslice (Some 2) None (Some (-2)))] [3; 2] = true.
+Proof. vm_compute. split; reflexivity. Qed.
+
+Example C11_plan_leading_ones_now_numpy :               (* was: Ellipsis not inserted: IndexError / shape mismatch *)
+  plan_obs [[4]; [2; 3; 1; 1]] [SList [0; 0; 1; 2]; SInt (-7)] [1; 4] <> Some None /\
+  den_ok_b [[4]; [2; 3; 1; 1]] [SList [0; 0; 1; 2]; SInt (-7)] [1; 4] = true /\
+  den_ok_b [[1; 1]; [4]] [SSlice (mkslice (Some 0) (Some 2) None); SInt 0] [1; 2] = true.
+Proof. vm_compute. repeat split; try reflexivity. discriminate. Qed.
+
+(* ---- Examples: the hypotheses are satisfiable, and the FULL statement holds on concrete non-trivial inputs ---- *)
+Example C11_plan_ex_plan :
+  plan [[2; 4]] [SSlice (mkslice (Some 5) (Some 0) (Some (-2)))] [3] =
+  Some [ BTouched [SSlice (mkslice (Some 1) (Some 2) (Some 2))] [SSlice (mkslice (Some 2) (Some 1) (Some (-1)))] false;
+         BTouched [SSlice (mkslice (Some 1) (Some 4) (Some 2))] [SSlice (mkslice (Some 1) None (Some (-1)))] false ].
+Proof. vm_compute. reflexivity. Qed.
+
+Example C11_plan_ex_axis_slice :
+  axis_block (PSl 1 6 2) 2 6 = Some (SSlice (mkslice (Some 1) (Some 4) (Some 2)), Some 2, Some 1) /\
+  axis_block (PSl 1 2 2) 2 6 = None /\
+  axis_block (PLst [5; 0; 3; 5]) 2 6 = Some (SList [3; 1; 3], None, None) /\ where_in 0 [5; 0; 3; 5] 2 6 = [0; 2; 3].
+Proof. vm_compute. repeat split; reflexivity. Qed.
+
+Example C11_plan_ex_frame :
+  exists pr, parse [SSlice (mkslice (Some 4) None (Some 3)); SInt (-1)] [6; 3] [] = Some pr /\
+    Forall wf_pidx1 (p_idx pr) /\
+    block_plan pr [] [(0, 2); (2, 3)] = BUntouched /\ block_plan pr [] [(2, 6); (2, 3)] <> BUntouched /\
+    Forall2 addressed1 (p_idx pr) [4; 2].
+Proof.
+  eexists. split; [vm_compute; reflexivity|]. cbn [p_idx].
+  split; [repeat constructor; cbn; lia|]. split; [vm_compute; reflexivity|]. split; [vm_compute; discriminate|].
+  repeat constructor; cbn; lia.
+Qed.
+
+(* the full denotation statement, decided at every position: reversed slice x repeated list x broadcasting, 2 x 2 blocks;
+   a clipped negative-step slice with a (1, 1, 3) value; an integer after a slice with a (1,) value; a repeated list with a
+   (1, 4) value *)
+Example C11_plan_ex_denotation :
+  den_ok_b [[2; 2]; [3; 3]] [SSlice (mkslice None None (Some (-1))); SList [5; 0; 2; 5]] [4; 4] = true /\
+  den_ok_b [[2; 2]; [3; 3]] [SSlice (mkslice None None (Some (-1))); SList [5; 0; 2]] [3] = true /\
+  den_ok_b [[2; 2]; [2; 2]] [SSlice (mkslice None None (Some (-2))); SSlice (mkslice (Some 1) None None)] [1; 1; 3] = true /\
+  den_ok_b [[2; 4]; [1; 2]] [SSlice (mkslice (Some 1) None (Some 2)); SInt (-1)] [1] = true /\
+  den_ok_b [[3; 3]] [SList [5; 0; 5; 2]] [1; 4] = true.
+Proof. vm_compute. repeat split; reflexivity. Qed.
+
+Print Assumptions C11_plan_axis_slice.
+Print Assumptions C11_plan_axis_int.
+Print Assumptions C11_plan_axis_list.
+Print Assumptions C11_plan_parse_wf.
+Print Assumptions C11_plan_frame_untouched.
+Print Assumptions C11_plan_frame_touched.
+Print Assumptions C11_plan_blocks_disjoint.
+Print Assumptions C11_plan_denotation_partial.
